@@ -91,6 +91,37 @@ check('C19',
       'Trusted: the machine\'s row tables. Covers 16 models of 9 groups (not every model of the library).',
       'DESIGN.md 7 C19')
 
+check('C10',
+      'property-based testing (Hypothesis): stock cases re-built from their own rows with drawn insertion order, '
+      'consistent idx renaming (int<->str), collated storage for drawn models, plus generated networks; '
+      'set-theoretic oracle on both addressing phases (disjoint/complete slots, slot names, phase-1 addresses '
+      'kept), external links resolved through an independent idx->(model, position) dictionary, and '
+      'Model.get / Group.get / global-vector reads compared',
+      'Invariant checking over generated systems: the bijection and link-follows-idx statements are recomputed from '
+      'first principles for every internal/external variable and external parameter of every populated model.',
+      'Trusted: the row tables read back from the loaded case (as_dict), the renaming transformation in vf/props/c10.py.',
+      'DESIGN.md 7 C10')
+
+check('C11',
+      'property-based testing (Hypothesis): (a) stock cases with every device/bus/system base multiplied by drawn '
+      'factors vs textbook per-unit ratios for every flagged parameter; (b) generated operation histories '
+      '(alter via model/group in both bases, set, reset, power flow, TDS init, json/xlsx dump->reload) checked step by '
+      'step against the history\'s own (vin, v) table, time-constant propagation, and the metamorphic twin '
+      '\'alter then simulate == load altered file then simulate\'',
+      'Reference-model comparison along generated histories; the exported file and a re-simulated twin are the '
+      'independent observers of the altered value.',
+      'Trusted: vf/oracle/pu.py (ratios), the base-selection convention documented by ANDES, json/xlsx readers of ANDES for reload.',
+      'DESIGN.md 7 C11')
+
+check('C12',
+      'property-based testing (Hypothesis): generated multigraphs over Line/Jumper with drawn statuses, slack placement '
+      'and devices; union-find oracle for islands / isolated buses / slack classification; metamorphic neutralisation '
+      '(delete the isolated buses: same convergence and voltages); bus switch-off histories (set/alter, batched or '
+      'sequential) vs the reference set of attached devices; Toggle events during simulation re-check the islands',
+      'Independent graph oracle on generated topologies plus a metamorphic relation for neutralisation.',
+      'Trusted: union-find in vf/props/c12.py; the list of dependent groups documented in connman.py.',
+      'DESIGN.md 7 C12')
+
 NOT_BUILT = 'check not built yet in this round (machinery in progress; see DESIGN.md section 10 build order)'
 ALL = ['C%02d' % i for i in range(1, 21)]
 
